@@ -9,9 +9,12 @@ mod = importlib.import_module('ddv.checks.' + sys.argv[1])
 tier = sys.argv[2] if len(sys.argv) > 2 else 'quick'
 cap = int(sys.argv[3]) if len(sys.argv) > 3 else 3000
 menu = mod.menu(tier)
+if hasattr(mod, 'pruned'):
+    menu = mod.pruned(menu)
 def one(i):
     scn = menu[i]
     t = time.time()
+    sched._VISITED.clear()
     n, capped = explore.explore(lambda ch: sched.run_once(scn, ch), mod.budgets_of(scn), lambda ch, x: None, max_execs=cap)
     return scn['name'], mod.budgets_of(scn), n, capped, round(time.time() - t, 1)
 res = common.pmap(one, list(range(len(menu))), init=sched._init_worker)
